@@ -24,7 +24,7 @@ def main():
     ctx = core.Ctx(a.pid, a.tier, seed, replay)
     pre_fail = []
     GEN = {'C01': ['gen_model'], 'C02': ['gen_model'], 'C03': ['gen_interp', 'gen_interp_multi'], 'C04': ['gen_prob'], 'C05': ['gen_fit'], 'C06': ['gen_infer'],
-           'C07': ['gen_infer'], 'C08': ['gen_infer'], 'C09': ['gen_limits'], 'C10': ['gen_model'], 'C12': ['gen_config'], 'C13': ['gen_model', 'gen_prob', 'gen_interp'], 'C14': ['gen_toys'], 'C15': ['gen_ws'], 'C16': ['gen_ws', 'gen_join'], 'C17': ['gen_patchset'], 'C18': ['gen_xml'], 'C19': ['gen_cli'], 'C20': ['gen_exc']}
+           'C07': ['gen_infer'], 'C08': ['gen_infer'], 'C09': ['gen_limits'], 'C10': ['gen_model'], 'C11': ['gen_events'], 'C12': ['gen_config'], 'C13': ['gen_model', 'gen_prob', 'gen_interp'], 'C14': ['gen_toys'], 'C15': ['gen_ws'], 'C16': ['gen_ws', 'gen_join'], 'C17': ['gen_patchset'], 'C18': ['gen_xml'], 'C19': ['gen_cli'], 'C20': ['gen_exc']}
     for g in GEN.get(a.pid, []):
         # the generated part of the model is re-derived from the current source before anything is built
         try:
